@@ -2,7 +2,9 @@ package props
 
 import (
 	"fmt"
+	"go/constant"
 	"go/token"
+	"go/types"
 	"sort"
 	"strings"
 
@@ -246,6 +248,28 @@ func runC04(c *eng.Ctx) {
 		}
 	}
 	snapshotBeforeCopy(c, "ORDER-commit")
+	// the compacted copy is written from position 0 of a file created for it: the create truncates whatever an
+	// earlier, abandoned compaction left under the same name (the index records offsets counted from the super block)
+	if fn := c.NeedFunc("weed/storage/backend", "CreateVolumeFile"); fn != nil {
+		var trunc int64
+		if pk := c.P.Pkg("weed/storage/backend"); pk != nil {
+			for _, imp := range pk.Types.Imports() {
+				if imp.Path() == "os" {
+					if o, ok := imp.Scope().Lookup("O_TRUNC").(*types.Const); ok {
+						trunc, _ = constant.Int64Val(constant.ToInt(o.Val()))
+					}
+				}
+			}
+		}
+		opens := eng.Find(fn, eng.PlainCallTo("os.OpenFile"))
+		if len(opens) == 0 {
+			c.Undecided("ORDER-commit", eng.FuncName(fn)+" creates-empty", fn.Pos(), "os.OpenFile not found")
+		}
+		for i, in := range opens {
+			k, ok := eng.ConstInt(eng.Arg(in.(ssa.CallInstruction), 1))
+			c.Ob("ORDER-commit", fmt.Sprintf("%s creates-empty#%d", eng.FuncName(fn), i), ok && trunc != 0 && k&trunc != 0, in.Pos(), "a volume file is created truncated (O_TRUNC)")
+		}
+	}
 	if fn := c.NeedFunc("weed/storage", "(*Volume).makeupDiff"); fn != nil {
 		revEq := eng.Cmp(func(v ssa.Value) bool { return eng.MentionsCall(v, "weed/storage.fetchCompactRevisionFromDatFile") }, func(v ssa.Value) bool { return eng.IsField(v, "Volume.lastCompactRevision") }, token.EQL)
 		returnsNonNilErr(c, "ORDER-commit", "revision-mismatch-aborts", fn, startsOf(eng.FailEdges(fn, revEq)), "a data file that was compacted by someone else meanwhile aborts the commit")
